@@ -190,6 +190,14 @@ def table_lookup(n, s, x):
     return bisect_right(t, x) - 1
 
 
+def pick(i):
+    return i
+
+
+def picks(n):
+    return [pick(i) for i in range(n)]
+
+
 CONTRACTS = {
     # sorted() of a pair, f(*t) for a tuple of known length, a 1-based table [None, ...] searched with bisect_right
     (C, 'sorted_pair'): {'params': {'a': 'int', 'b': 'int'}, 'raises': {}, 'returns': 'tuple:int,int',
@@ -273,4 +281,41 @@ NEGATIVE = {
                         'loops': {0: {'inv': ['len(t) == _it + 1', 'forall(lambda u: implies(0 <= u and u <= _it, t[u] == s + u), lambda u: t[u])']}},
                         'ensures': ['result[0] == s', 'forall(lambda u: not (0 <= u and u <= n) or result[u] == s + u + 1, lambda u: result[u])']},
     (C, 'first_free'): {'params': {'n': 'int'}, 'raises': {}, 'returns': 'int', 'ensures': ['result == n + 2']},
+    # a callee known only through an under-determined contract, called once per element of a comprehension: the results are
+    # different values per index (one shared fresh value for all indices would prove result[0] == result[1])
+    (C, 'pick'): {'assumed': 'under-determined on purpose', 'params': {'i': 'int'}, 'returns': 'int', 'ensures': ['0 <= result or result <= 0']},
+    (C, 'picks'): {'params': {'n': 'int'}, 'requires': ['n >= 2'], 'raises': {}, 'returns': 'intlist', 'ensures': ['result[0] == result[1]']},
+    # the positive cases above with ONE clause falsified each (key: function#tag): aliasing, copies, in-place +=, loop exits,
+    # raises-iff in both directions, floor division, negative indices, closures, nest loops
+    (C, 'alias_store#keeps'): {'params': {'x': 'intlist'}, 'requires': ['len(x) > 0', 'x[0] != 99'], 'raises': {}, 'returns': 'intlist',
+                               'ensures': ['x[0] == old(x)[0]']},
+    (C, 'iadd_alias#copy'): {'params': {'x': 'intlist'}, 'raises': {}, 'returns': 'int', 'ensures': ['len(x) == len(old(x))']},
+    (C, 'add_copy#inplace'): {'params': {'x': 'intlist'}, 'raises': {}, 'returns': 'int', 'ensures': ['len(x) == len(old(x)) + 1']},
+    (C, 'slice_copy#alias'): {'params': {'x': 'intlist'}, 'requires': ['len(x) > 0', 'x[0] != 99'], 'raises': {}, 'returns': 'intlist', 'ensures': ['x[0] == 99']},
+    (C, 'sum_range#off'): {'params': {'n': 'int'}, 'requires': ['n >= 1'], 'raises': {}, 'returns': 'int',
+                           'loops': {0: {'inv': ['2 * s == _it * (_it + 1)']}}, 'ensures': ['2 * result == n * (n - 1)']},
+    (C, 'for_else#nobreak'): {'params': {'n': 'int', 'k': 'int'}, 'requires': ['0 <= k', 'k < n'], 'raises': {}, 'returns': 'int',
+                              'loops': {0: {'inv': ['found == 0', 'not (0 <= k and k < _it)']}}, 'ensures': ['result == 2']},
+    (C, 'str_dispatch#never'): {'params': {'op': 'str', 'a': 'int', 'b': 'int'}, 'raises': {}, 'returns': 'int', 'ensures': ['result == 0 or result == 1']},
+    (C, 'str_dispatch#always'): {'params': {'op': 'str', 'a': 'int', 'b': 'int'}, 'raises': {'ValueError': "op != '<'"}, 'returns': 'int',
+                                 'ensures': ['result == 0 or result == 1']},
+    (C, 'floordiv_mod#trunc'): {'params': {'a': 'int', 'b': 'int'}, 'requires': ['b != 0'], 'raises': {}, 'returns': 'tuple:int,int',
+                                'ensures': ['(a >= 0 and result[1] >= 0) or (a < 0 and result[1] <= 0)']},
+    (C, 'neg_index#nowrap'): {'params': {'x': 'intlist', 'i': 'int'}, 'requires': ['-len(x) <= i and i < 0', 'len(x) >= 2', 'x[0] != x[len(x) - 1]'], 'raises': {}, 'returns': 'int',
+                              'ensures': ['result == x[0] or i != -1']},
+    (C, 'pop_append#grows'): {'params': {'x': 'intlist', 'v': 'int'}, 'raises': {}, 'returns': 'int', 'ensures': ['len(x) == len(old(x)) + 1']},
+    (C, 'closure_call#late'): {'params': {'a': 'int'}, 'raises': {}, 'returns': 'int', 'ensures': ['result == a + 6']},
+    (C, 'bool_arith#strict'): {'params': {'a': 'int', 'b': 'int'}, 'raises': {}, 'returns': 'int', 'ensures': ['(a > b and result == 1) or (a <= b and result == 0)']},
+    (C, 'comb_gaps#ordered'): {'params': {'n': 'int'}, 'requires': ['n >= 2'], 'raises': {}, 'returns': 'int',
+                               'loops': {0: {'nest': [{'counter': '_io', 'inv': ['2 * c == _io * (2 * n - _io - 1) or (n < 1 and c == 0)', 'c >= 0']},
+                                                      {'ghost_at_entry_vals': {'C0': 'c'}, 'inv': ['c == C0 + _it']}]}},
+                               'ensures': ['result == n * (n - 1)']},
+    (C, 'prod_count#square'): {'params': {'n': 'int', 'm': 'int'}, 'requires': ['n >= 1', 'm >= 2'], 'raises': {}, 'returns': 'tuple:int,int',
+                               'loops': {0: {'nest': [{'counter': '_io', 'inv': ['(m >= 0 and c == _io * m) or (m < 0 and c == 0)']},
+                                                      {'ghost_at_entry_vals': {'C0': 'c'}, 'inv': ['c == C0 + _it']}]}},
+                               'ensures': ['result[0] == n * n or n == m']},
+    (C, 'table_lookup#left'): {'params': {'n': 'int', 's': 'int', 'x': 'int'}, 'requires': ['n >= 1', 'x == s + 2'], 'raises': {}, 'returns': 'int',
+                               'loops': {0: {'inv': ['len(t) == _it + 2', 'forall(lambda u: implies(1 <= u and u <= _it + 1, t[u] == s + 2 * (u - 1)), lambda u: t[u])']}},
+                               'ensures': ['result == 1']},
+    (C, 'sorted_pair#keep'): {'params': {'a': 'int', 'b': 'int'}, 'requires': ['a > b'], 'raises': {}, 'returns': 'tuple:int,int', 'ensures': ['result[0] == a']},
 }
